@@ -100,6 +100,34 @@ theorem count_same_for_any_two_orders (o₁ o₂ : List Nat) (kwargs : List (Nat
   rw [multi_list_count_order_independent o₁ kwargs a b rest h hk h₁,
       multi_list_count_order_independent o₂ kwargs a b rest h hk h₂]
 
+/-- the loop order never invents a list: everything it loops over was passed by the user -/
+theorem mem_of_mem_orderLists (order : List Nat) (lists : List (Nat × List Nat)) (kv : Nat × List Nat)
+    (h : kv ∈ orderLists order lists) : kv ∈ lists := by
+  unfold orderLists at h
+  rcases List.mem_append.mp h with h | h
+  · obtain ⟨k, _, hf⟩ := List.mem_filterMap.mp h
+    exact List.mem_of_find?_eq_some hf
+  · exact (List.mem_filter.mp h).1
+
+/-- several lists, end to end: no combination is yielded twice (for duplicate-free value lists),
+    whatever the loop order -/
+theorem combos_no_duplicates (order : List Nat) (kwargs : List (Nat × List Nat))
+    (a b : Nat × List Nat) (rest : List (Nat × List Nat)) (h : loopLists kwargs = a :: b :: rest)
+    (hv : ∀ kv ∈ loopLists kwargs, kv.2.Nodup) : (combos order kwargs).Nodup := by
+  simp only [combos, h]
+  rw [← h]
+  apply List.Nodup.map_on
+  · intro v hv' w hw' hzw
+    have lv := ((mem_product _ v).mp hv').length_eq
+    have lw := ((mem_product _ w).mp hw').length_eq
+    simp only [List.length_map] at lv lw
+    have := congrArg (List.map Prod.snd) hzw
+    rwa [List.map_snd_zip (by simp [lv]), List.map_snd_zip (by simp [lw])] at this
+  · apply product_nodup
+    intro l hl
+    obtain ⟨kv, hkv, rfl⟩ := List.mem_map.mp hl
+    exact hv kv (mem_of_mem_orderLists order _ kv hkv)
+
 /-- premises satisfiable: a 2×1×3 call under two loop orders -/
 example : (combos [7, 3] [(3, [10, 11]), (5, [1]), (7, [20, 21, 22])]).length = 6 ∧
     (combos [3] [(3, [10, 11]), (5, [1]), (7, [20, 21, 22])]).length = 6 := by decide
